@@ -13,38 +13,71 @@ def escape_table(ctx, s):
     an = ctx.E.an(fn)
     cfg = an.cfg
     ctx.functions.add(fn.path)
-    # the switch on the code point: value -> first extend() reached from that arm
-    table = {}
+    # the dispatch on the code point: the switch with the most valued arms on a u32
     sw = None
+    best = 0
     for b, info in an.term.items():
         if info["kind"] == "switch" and info["dty"] == "u32":
             ec = [e for e in cfg.out_edges[b] if e.label[0] == "switch"]
-            if len(ec) >= 5:
-                sw = b
-                for e in ec:
-                    # follow goto/call chain until an extend call
-                    cur = e.dst
-                    for _ in range(6):
-                        ti = an.term.get(cur)
-                        if ti is None:
-                            break
-                        if ti["kind"] == "call" and (ti["callee"] or "").endswith("::extend"):
-                            bs = find_values(ti["args"][1], lambda x: x[0] == "bytes")
-                            if bs:
-                                table[e.label[1]] = bs[0][1]
-                            break
-                        outs = cfg.out_edges[cur]
-                        if len(outs) != 1:
-                            break
-                        cur = outs[0].dst
+            if len(ec) >= 5 and len(ec) > best:
+                sw, best = b, len(ec)
     from ..main import AnalysisError
     if sw is None:
         raise AnalysisError("escape dispatch not found in json_escape")
-    ok = table == NIP01_TABLE
+    cp = an.term[sw]["discr"]
+    ext = [(b, i) for b, i in an.calls() if (i["callee"] or "").endswith("::extend")]
+    ext_blocks = {b for b, i in ext}
+    rets = {b for b, i in an.term.items() if i["kind"] == "return"}
+
+    def appended(b, path):
+        """constant bytes appended by the extend call in block b when reached along path (None: not a constant)"""
+        i = an.term[b]
+        for v in (i["args"][1], i["pre"][1] if len(i["pre"]) > 1 else None):
+            if v is None:
+                continue
+            v = s.value_on_path(fn, path, v)
+            allv = deep_values(an, v)
+            if any(contains_value(x, lambda y: y[0] == "call" and y[1].rsplit("::", 1)[-1] in ("format", "must_use")) for x in allv):
+                return "fmt"
+            bs = find_values(v, lambda x: x[0] == "bytes")
+            if bs and not contains_value(v, lambda x: x[0] == "phi"):
+                return bs[0][1]
+        return None
+    # value -> what the first append on every feasible path from that arm writes
+    table = {}
+    bad_arms = []
+    table_blocks = set()
+    for e in cfg.out_edges[sw]:
+        if e.label[0] != "switch":
+            continue
+        paths, other = s.paths_to_first(fn, e.node, ext_blocks | rets)
+        outs = set()
+        for pth in paths:
+            last = pth[-1]
+            if last in ext_blocks:
+                outs.add(appended(last, pth))
+                table_blocks.add(last)
+            else:
+                outs.add("return")
+        if len(outs) == 1 and isinstance(next(iter(outs)), bytes):
+            table[e.label[1]] = next(iter(outs))
+        else:
+            bad_arms.append((e.label[1], sorted(map(repr, outs))))
+    ok = table == NIP01_TABLE and not bad_arms
     s.add("S-TABLE", fn, "escape-table", "NIP-01", fn.blocks[sw]["term"]["sp"], PROVED if ok else VIOLATION,
           "the seven NIP-01 escapes \\b \\t \\n \\f \\r \\\" \\\\ and nothing else are emitted as two-character escapes" if ok else
-          "escape table differs from NIP-01: got %s" % sorted((hex(k), v) for k, v in table.items()), sw)
-    # the default arm: \\u00XX only for code points <= 0x20, lower-case hex, 4 digits
+          "escape table differs from NIP-01: got %s%s" % (sorted((hex(k), v) for k, v in table.items()),
+                                                          (" and arms without a single constant escape: %s" % bad_arms) if bad_arms else ""), sw)
+    # the default arm: what it can append first
+    default_first = set()
+    for e in cfg.out_edges[sw]:
+        if e.label[0] != "otherwise":
+            continue
+        paths, other = s.paths_to_first(fn, e.node, ext_blocks | rets)
+        for pth in paths:
+            if pth[-1] in ext_blocks:
+                default_first.add((pth[-1], appended(pth[-1], pth)))
+    # \\u00XX: lower-case hex, 4 digits
     fmt = [(b, i) for b, i in an.calls() if (i["callee"] or "").endswith("new_lower_hex")]
     tmpl = [(b, i) for b, i in an.calls() if (i["callee"] or "") == "core::fmt::{impl#4}::new" or (i["callee"] or "").endswith("Arguments::new")]
     okf = bool(fmt)
@@ -56,35 +89,30 @@ def escape_table(ctx, s):
     okf = okf and lit.startswith(b"\x02\\u")
     s.add("S-TABLE", fn, "control-escape", "\\u00xx", fn.sp, PROVED if okf else VIOLATION,
           "remaining control characters are written as \\u + lower-case hex" if okf else "the fallback escape is not \\u + lower-case hex")
-    # every append of the escaper is one of: the verbatim copy, a table arm, the \\u fallback; the fallback is
-    # reachable only for code points <= 0x20 (everything else passes verbatim or is one of the seven)
+    # every append of the escaper is one of: the verbatim copy, a table escape (reached from a valued arm only), the
+    # \\u fallback (reached from the default arm only, under a proved code point <= 0x20)
     from ..prove import lin_add, lin_const
     P = ctx.E.prover(fn)
-    cp = an.term[sw]["discr"]
     arms = 0
-    for b, i in an.calls():
-        c = i["callee"] or ""
-        if not c.endswith("::extend"):
-            continue
+    for b, i in ext:
         src = i["args"][1]
         if src[0] == "slice":
             continue
-        allv = deep_values(an, src) + ([i["pre"][1]] if i["pre"][1] is not None else [])
-        is_fmt = any(contains_value(x, lambda y: y[0] == "call" and y[1].rsplit("::", 1)[-1] in ("format", "must_use")) for x in allv)
-        bs = find_values(src, lambda x: x[0] == "bytes")
-        if bs and not is_fmt:
+        from_default = {x for x in default_first if x[0] == b}
+        kinds = {x[1] for x in from_default}
+        is_fmt = appended(b, []) == "fmt" or "fmt" in kinds
+        if not is_fmt:
             arms += 1
-            in_table = any(f[0] == "eq" and True for f in ()) or _arm_of(an, cfg, sw, b)
-            if not in_table:
-                s.add("S-TABLE", fn, "escape-outside-table", repr(bs[0][1])[:20], i["sp"], VIOLATION,
-                      "a constant escape sequence is appended outside the code-point dispatch: some character is written in a form "
-                      "other than the NIP-01 table", b)
+            # a constant escape: must be a table append, and the default arm must not get there with a constant
+            leak = [x for x in from_default if isinstance(x[1], bytes)]
+            if b not in table_blocks or leak:
+                s.add("S-TABLE", fn, "escape-outside-table", "extend", i["sp"], VIOLATION,
+                      "a constant escape sequence is appended for a code point outside the seven of the NIP-01 table", b)
             continue
         g = lin_add(P.lin(cp), lin_const(-0x20))        # cp - 0x20 <= 0
-        facts = ctx.E.facts(fn, b)
-        okc = P.prove_le0(g, facts) and _arm_of(an, cfg, sw, b, default=True)
+        okc = P.prove_le0(g, ctx.E.facts(fn, b)) and b not in table_blocks
         s.add("S-TABLE", fn, "fallback-only-for-controls", "\\u00xx", i["sp"], PROVED if okc else VIOLATION,
-              "the \\u form is produced only in the default arm of the dispatch and only for code points <= 0x20" if okc else
+              "the \\u form is produced only outside the seven table code points and only for code points <= 0x20" if okc else
               "a \\u escape (or other non-table output) can be produced for a character that NIP-01 requires verbatim or as a "
               "two-character escape", b)
     ctx.instances["C08.table-arm appends"] = arms
